@@ -101,6 +101,40 @@ def membersClean : List EnumVal → Bool
 
 def isPlainScalar (k : String) (m : Meta) : Bool := plainKinds.contains k && !hasHint m "string_format_datetime"
 
+/-- the explicit default printed for one field is well-typed: mirrors `fieldLit`; `nestedOk` judges
+    the literal of a referenced struct that carries its own default -/
+def fieldShapeOk (ss : Schemas) (f : Field) (resolved : Ty) (extras : List (String × Val))
+    (nestedOk : List Field → Val → Bool) : Bool :=
+  let m := f.ty.getMeta
+  if !needsDefault f resolved extras then true else
+  match lookupKV f.name extras with
+  | some ev =>
+    (match f.ty with
+      | .scalar k _ _ _ => isPlainScalar k m && valFits k ev
+      | _ => false)
+  | none =>
+    match f.ty with
+    | .scalar k v _ _ =>
+      isPlainScalar k m && (if !Cog.Passes.Val.isNil v then valFits k v else valFits k m.dflt)
+    | .array e _ =>
+      if Cog.Passes.Val.isNil m.dflt then true
+      else (match e, m.dflt with
+        | .scalar "string" _ _ em, .list xs => !em.nullable && !hasHint em "string_format_datetime" && allStrVals xs
+        | _, _ => false)
+    | .map .. => Cog.Passes.Val.isNil m.dflt
+    | .ref p n _ =>
+      (match ss.locateObject p n with
+        | none => false
+        | some o =>
+          (match o.ty with
+            | .struct rfs _ _ om =>
+              if Cog.Passes.Val.isNil m.dflt then true
+              else !om.nullable && fieldNamesOk rfs && fieldsTyOk ss rfs && nestedOk rfs m.dflt
+            | .enum vs _ => !vs.isEmpty && membersClean vs
+            | .ref .. => Cog.Passes.Val.isNil m.dflt && hasCtor ss o && resolved.isStruct
+            | _ => false))
+    | _ => false
+
 mutual
 /-- the literal `defaultsForStruct` prints for a struct is well-typed; fuel bounds the nesting of
     struct defaults exactly as in the printer -/
@@ -110,46 +144,11 @@ def structDefaultOk (ss : Schemas) : Nat → List Field → Val → Bool
 def defaultsOk (ss : Schemas) : Nat → List Field → List (String × Val) → Bool
   | _, [], _ => true
   | fuel, f :: fs, extras => fieldDefaultOk ss fuel f extras && defaultsOk ss fuel fs extras
-/-- the explicit default printed for one field is well-typed; mirrors the case analysis of `defaultsField` -/
 def fieldDefaultOk (ss : Schemas) : Nat → Field → List (String × Val) → Bool
   | fuel, f, extras =>
     match ss.resolveToType (ss.objectCount + 2) f.ty with
     | none => false
-    | some resolved =>
-      let m := f.ty.getMeta
-      let extra := lookupKV f.name extras
-      let extraNonNil := match extra with | some v => !Cog.Passes.Val.isNil v | none => false
-      let needs := !Cog.Passes.Val.isNil m.dflt || extraNonNil
-        || (f.required && f.ty.isRef && resolved.isStruct) || (f.required && f.ty.isArray) || (f.required && f.ty.isMap)
-        || isConcreteScalar f.ty || isCref f.ty
-      if !needs then true else
-      match extra with
-      | some ev =>
-        (match f.ty with
-          | .scalar k _ _ _ => isPlainScalar k m && valFits k ev
-          | _ => false)
-      | none =>
-        match f.ty with
-        | .scalar k v _ _ =>
-          isPlainScalar k m && (if !Cog.Passes.Val.isNil v then valFits k v else valFits k m.dflt)
-        | .array e _ =>
-          if Cog.Passes.Val.isNil m.dflt then true
-          else (match e, m.dflt with
-            | .scalar "string" _ _ em, .list xs => !em.nullable && !hasHint em "string_format_datetime" && allStrVals xs
-            | _, _ => false)
-        | .map .. => Cog.Passes.Val.isNil m.dflt
-        | .ref p n _ =>
-          (match ss.locateObject p n with
-            | none => false
-            | some o =>
-              (match o.ty with
-                | .struct rfs _ _ om =>
-                  if Cog.Passes.Val.isNil m.dflt then true
-                  else !om.nullable && fieldNamesOk rfs && fieldsTyOk ss rfs && structDefaultOk ss fuel rfs m.dflt
-                | .enum vs _ => !vs.isEmpty && membersClean vs
-                | .ref .. => Cog.Passes.Val.isNil m.dflt && hasCtor ss o && resolved.isStruct
-                | _ => false))
-        | _ => false
+    | some resolved => fieldShapeOk ss f resolved extras (fun rfs d => structDefaultOk ss fuel rfs d)
 end
 
 /-! ## objects, schemas -/
@@ -178,14 +177,17 @@ def objectsOk (ss : Schemas) (pkg : String) : List (String × Obj) → Bool
   | [] => true
   | (k, o) :: rest => o.name == k && o.selfName == k && o.selfPkg == pkg && objOk ss o && objectsOk ss pkg rest
 
-def schemaOk (ss : Schemas) (s : Schema) : Bool := fmtPkg s.pkg == s.pkg && objectsOk ss s.pkg s.objects
+/-- the package name is its own formatted form and is not one of the runtime's packages; objects are
+    stored under distinct keys (the ordered-map invariant, C19) -/
+def schemaOk (ss : Schemas) (s : Schema) : Bool :=
+  fmtPkg s.pkg == s.pkg && !externalPkgs.contains s.pkg && nodupB (s.objects.map (·.1)) && objectsOk ss s.pkg s.objects
 
 def schemasOk (ss : Schemas) : List Schema → Bool
   | [] => true
   | s :: rest => schemaOk ss s && schemasOk ss rest
 
 /-- hypothesis 1 of `C02_go_decls_partial` -/
-def GoPrintable (ss : Schemas) : Bool := schemasOk ss ss
+def GoPrintable (ss : Schemas) : Bool := nodupB (ss.map (·.pkg)) && schemasOk ss ss
 
 def schemaNamesOk (ss : Schemas) (s : Schema) : Bool :=
   (objsIdents ss s.objects).all validIdent && nodupB (objsIdents ss s.objects)
